@@ -181,6 +181,12 @@ def checkTypes (m : Module) : List String :=
 def checkGlobals (m : Module) : List String :=
   m.globals.toList.flatMap (fun g =>
     (if g.ty ≥ m.types.size then [s!"global {g.name}: type handle out of range"] else []) ++
+    -- only a storage buffer may be (or end in) a runtime-sized array: a workgroup or private variable has a fixed footprint
+    (match m.types[g.ty]? with
+     | some (Ty.array _ 0 _) =>
+       if g.space == "workgroup" || g.space == "private" then
+         [s!"global {g.name}: runtime-sized array in the {g.space} address space"] else []
+     | _ => []) ++
     (match g.init with
      | some (true, h) => if h ≥ m.gexprs.size then [s!"global {g.name}: initialiser expression out of range"] else []
      | some (false, k) => if k ≥ m.consts.size then [s!"global {g.name}: initialiser constant out of range"] else []
